@@ -38,12 +38,15 @@ def log(*a):
 # --------------------------------------------------------------------------------------------
 # building
 # --------------------------------------------------------------------------------------------
-def tree_hash(extra=()):
-    """content hash of everything a result depends on (never reuse results across trees)"""
+def tree_hash(extra=(), spec_files=None, lib_files=None):
+    """content hash of everything a result depends on (never reuse results across trees).
+    spec_files / lib_files narrow the specification / runner files that matter for this result."""
     h = hashlib.sha256()
     roots = [os.path.join(REPO, "src"), os.path.join(REPO, "Cargo.toml"), os.path.join(REPO, "Cargo.lock"),
-             SPEC, os.path.join(VERIF, "lib"), os.path.join(VERIF, "bin"), os.path.join(HARNESS, "src"),
-             os.path.join(HARNESS, "Cargo.toml"), os.path.join(VERIF, "seeds")]
+             os.path.join(HARNESS, "src"), os.path.join(HARNESS, "Cargo.toml"), os.path.join(VERIF, "seeds"),
+             os.path.join(VERIF, "bin")]
+    roots += [os.path.join(SPEC, f) for f in spec_files] if spec_files else [SPEC]
+    roots += [os.path.join(VERIF, "lib", f) for f in lib_files] if lib_files else [os.path.join(VERIF, "lib")]
     for r in roots:
         if os.path.isfile(r):
             files = [r]
@@ -147,7 +150,7 @@ def run_tlc(module, cfg, env=None, workers=1, simulate=None, depth=None, seed=No
     if deque:
         java += ["-Dtlc2.tool.queue.IStateQueue=StateDeque"]
     cmd = java + ["-cp", TLA_CP, "tlc2.TLC", "-workers", str(workers), "-metadir", meta, "-cleanup",
-                  "-noGenerateSpecTE", "-config", os.path.join("mc", cfg)]
+                  "-noGenerateSpecTE", "-config", cfg if os.path.isabs(cfg) else os.path.join("mc", cfg)]
     if simulate is not None:
         cmd += ["-simulate", "num=%d" % simulate]
     if depth is not None:
